@@ -30,6 +30,9 @@ func init() {
 			"(eventPath == currentWatchedPath &&", "(eventPath == w.absolutePath &&", "C38.relevant_notifies"},
 		Mutant{"C38", "write-and-create-required", "internal/confwatcher/confwatcher.go",
 			"fsnotify.Write ||\n", "fsnotify.Write &&\n", "C38.relevant_notifies"},
+		// Has(Write|Create) is true only for an event that is both
+		Mutant{"C38", "write-and-create-required-has", "internal/confwatcher/confwatcher.go",
+			"((event.Op&fsnotify.Write) == fsnotify.Write ||\n\t\t\t\t\t\t(event.Op&fsnotify.Create) == fsnotify.Create))", "event.Has(fsnotify.Write|fsnotify.Create))", "C38.relevant_notifies"},
 		Mutant{"C38", "notification-not-blocking", "internal/confwatcher/confwatcher.go",
 			"\t\tcase w.signal <- struct{}{}:\n\t\t\treturn true\n", "\t\tcase w.signal <- struct{}{}:\n\t\t\treturn true\n\t\tdefault:\n\t\t\treturn true\n", "C38.notify_blocking"},
 		// the original defect: a change close to the previous notification is dropped
@@ -63,7 +66,7 @@ func runC38(c *Ctx) {
 	}
 	c.Explain = "E4 on (*ConfWatcher).run: region = blocks dominated by the body of the select case receiving from w.inner.Events; target = the loop's select; barrier = a select offering a send on w.signal (or a send on it). " +
 		"no_time_drop: for every branch in the region whose condition mentions the clock, an edge of it that can reach the target without barrier and without an irrelevance literal must be preceded/followed by a timer-arming call ((*time.Timer).Reset, time.NewTimer, time.After, time.AfterFunc). " +
-		"relevant_notifies.{swap,write,create}: the target is unreachable without barrier when the walk refuses the edges T(resolved path == \"\"), T(resolved == previous) resp. T(resolved == \"\"), F(event path == resolved), F(event.Op&Write==Write) resp. F(event.Op&Create==Create) (and the edges already reported by no_time_drop). " +
+		"relevant_notifies.{swap,write,create}: the target is unreachable without barrier when the walk refuses the edges T(resolved path == \"\"), T(resolved == previous) resp. T(resolved == \"\"), F(event path == resolved), 'operation does not include Write' resp. Create - in any equivalent spelling: F((Op&k)==k), F(event.Has(k)), F(event.Op.Has(k)), T((Op&M)==0) with k in M, either operand order (prop_gen_c38.go) - (and the edges already reported by no_time_drop). " +
 		"current_reevaluated: filepath.EvalSymlinks(w.absolutePath) is called inside the region and absolutePath is stored only by Initialize. notify_blocking, watch_channel, core.{source,reload,same_file}: shape rules. " +
 		"NOT decided: any timing (debounce interval, additionalWait), fsnotify's own delivery guarantees, conf.Load."
 	c.Assume = []string{
@@ -280,7 +283,8 @@ func c38Run(c *Ctx, p *Prog, run *ssa.Function) {
 		return
 	}
 	removedAtom := "(" + curD + ` == "")`
-	opAtom := func(k int64) string { return fmt.Sprintf("((%s.Op & %d) == %d)", evD, k, k) }
+	// "the operation does not include k" in any equivalent spelling (prop_gen_c38.go)
+	opAbsent := func(l Lit, k int64) bool { return c38OpAbsent(l, evD, k) }
 	var noSwapAtom, matchAtom string
 	var timeIfs []*ssa.If
 	present := map[string]bool{}
@@ -324,11 +328,25 @@ func c38Run(c *Ctx, p *Prog, run *ssa.Function) {
 	c.Count("clock-dependent branches in the events case", len(timeIfs))
 
 	irrelevant := func(l Lit) bool {
+		if opAbsent(l, wr) || opAbsent(l, cr) {
+			return true
+		}
 		if l.Pos {
 			return l.Atom == removedAtom
 		}
-		return (matchAtom != "" && l.Atom == matchAtom) || l.Atom == opAtom(wr) || l.Atom == opAtom(cr)
+		return matchAtom != "" && l.Atom == matchAtom
 	}
+	// which operations the events case tests at all (also inside new helpers: the
+	// walk enters them)
+	opTested := map[int64]bool{}
+	walkTo(Point{caseB, 0}, func(ssa.Instruction) bool { return false }, isHead, func(l Lit) bool {
+		for _, k := range []int64{wr, cr} {
+			if c38OpMentioned(l, evD, k) {
+				opTested[k] = true
+			}
+		}
+		return true
+	})
 	barrierNT := func(i ssa.Instruction) bool { return sendsSignal(i) || arms(i) }
 
 	// ---- no_time_drop
@@ -393,12 +411,12 @@ func c38Run(c *Ctx, p *Prog, run *ssa.Function) {
 			}, noSwapAtom != ""},
 		{"write", "a Write event on the resolved watched path notifies",
 			func(l Lit) bool {
-				return (l.Pos && l.Atom == removedAtom) || (!l.Pos && ((matchAtom != "" && l.Atom == matchAtom) || l.Atom == opAtom(wr)))
-			}, matchAtom != "" && present[opAtom(wr)]},
+				return (l.Pos && l.Atom == removedAtom) || (!l.Pos && matchAtom != "" && l.Atom == matchAtom) || opAbsent(l, wr)
+			}, matchAtom != "" && opTested[wr]},
 		{"create", "a Create event on the resolved watched path notifies",
 			func(l Lit) bool {
-				return (l.Pos && l.Atom == removedAtom) || (!l.Pos && ((matchAtom != "" && l.Atom == matchAtom) || l.Atom == opAtom(cr)))
-			}, matchAtom != "" && present[opAtom(cr)]},
+				return (l.Pos && l.Atom == removedAtom) || (!l.Pos && matchAtom != "" && l.Atom == matchAtom) || opAbsent(l, cr)
+			}, matchAtom != "" && opTested[cr]},
 	}
 	for _, r := range rules {
 		rr := r
